@@ -8,10 +8,7 @@ import sys
 VERIF = os.path.dirname(os.path.dirname(os.path.abspath(__file__)))
 sys.path.insert(0, VERIF)
 
-NOT_APPLICABLE = {
-    "C29": "TOTP window: equality with RFC 6238 is a numeric fact about HMAC output over runtime values; the only structural clause (two digests compared) is too weak to be a necessary-and-meaningful condition. No sound static argument in reach (DESIGN.md section 7).",
-    "C30": "Agreement of password-hash outputs with independent implementations requires executing the hash functions; the storage side of every format is covered structurally by C12 (DESIGN.md section 7).",
-}
+NOT_APPLICABLE = {}
 
 # checks that exist but are withheld from the manifest for the moment (reason shown under not_applicable)
 HOLD = {
